@@ -977,7 +977,7 @@ func genHammer(t *rapid.T) Case {
 		ch.Class = classes[i%len(classes)]
 		c.Batch = append(c.Batch, ch)
 	}
-	c.G = rapid.SampledFrom([]int{2, 2, 3, 4, 4, 6, 8, 8, 12, 16}).Draw(t, "goroutines")
+	c.G = rapid.SampledFrom([]int{4, 8, 2, 16, 3, 6, 12, 2}).Draw(t, "goroutines")
 	c.Rounds = rapid.IntRange(vstat.Pick(1000, 4000), vstat.Pick(3000, 12000)).Draw(t, "rounds")
 	// the race-detector unit needs overlapping calls, not many of them (and is ten times slower per call)
 	if mx := vstat.EnvInt("VERIF_HAMMER_MAX_ROUNDS", 0); mx > 0 {
